@@ -29,7 +29,8 @@ type SpecFn struct {
 type AliasPattern [][]string // list of classes, each a list of parameter names that coincide
 
 type CutSpec struct {
-	Call   int
+	Call   int    // call#N anchor (after the N-th call instruction), or 0
+	Anchor string // "before call NAME#K" | "after call NAME#K" | "after store NAME"
 	Havoc  []SpecExpr
 	Assert SpecExpr
 }
@@ -55,6 +56,7 @@ type FuncContract struct {
 	Assumed  bool
 	Loops    map[int]*LoopSpec
 	Cuts     map[int]*CutSpec
+	NamedCuts []*CutSpec
 	Secret   []SpecExpr
 	Public   []SpecExpr
 	Ghost    []string
@@ -179,6 +181,7 @@ var reClass = regexp.MustCompile(`^class\s+([A-Za-z0-9_]+)\s*=\s*\[(.*)\]\s*$`)
 var reUfun = regexp.MustCompile(`^ufun\s+([A-Za-z0-9_]+)\s*\(([^)]*)\)\s*([A-Za-z0-9_]+)\s*$`)
 var reAxiom = regexp.MustCompile(`^(axiom|lemma)\s+([A-Za-z0-9_\-]+)(\s*\[[A-Za-z0-9_,\- ]+\])?\s*:\s*(.*)$`)
 var reCut = regexp.MustCompile(`^cut\s+call#([0-9]+)\s+havoc\s+([^:]*):\s*(.*)$`)
+var reCutNamed = regexp.MustCompile(`^cut\s+((?:before|after)\s+(?:call|store)\s+[A-Za-z0-9_.$]+(?:#[0-9]+)?)\s+havoc\s+([^:]*):\s*(.*)$`)
 var reLoop = regexp.MustCompile(`^loop#([0-9]+)\s+(invariant|modifies|peel)\s+(.*)$`)
 
 func sortOf(s string) Sort {
@@ -392,11 +395,22 @@ func ParseContracts(file, pkg string, configOK func(pred string) bool) (*PkgCont
 			}
 		case kw == "cut":
 			m := reCut.FindStringSubmatch(body)
+			named := false
+			if m == nil {
+				m = reCutNamed.FindStringSubmatch(body)
+				named = true
+			}
 			if m == nil {
 				return nil, fmt.Errorf("%s: bad cut clause %q", line, body)
 			}
-			n, _ := strconv.Atoi(m[1])
-			cs := &CutSpec{Call: n}
+			n := 0
+			cs := &CutSpec{}
+			if named {
+				cs.Anchor = strings.Join(strings.Fields(m[1]), " ")
+			} else {
+				n, _ = strconv.Atoi(m[1])
+				cs.Call = n
+			}
 			for _, p := range splitTop(m[2], ',') {
 				if strings.TrimSpace(p) == "" {
 					continue
@@ -412,7 +426,11 @@ func ParseContracts(file, pkg string, configOK func(pred string) bool) (*PkgCont
 				return nil, err
 			}
 			cs.Assert = e
-			cur.Cuts[n] = cs
+			if named {
+				cur.NamedCuts = append(cur.NamedCuts, cs)
+			} else {
+				cur.Cuts[n] = cs
+			}
 		case strings.HasPrefix(kw, "loop#"):
 			m := reLoop.FindStringSubmatch(body)
 			if m == nil {
